@@ -529,6 +529,17 @@ pub fn generate(seed: u64, run: u64, prop: &str) -> Generated {
         in_scope.push(has("users").unwrap());
         join_tags.push("orders-users");
     }
+    // ... or towards the children (parent rows without a child are preserved by an outer join)
+    if from.len() == 1 && base_t.name == "users" && has("orders").is_some() && rg.chance(0.3) {
+        from.push(FromItem { table: "orders".into(), alias: "o".into(), on: Some("o.user_id = u.id".into()), kind: if rg.chance(0.5) { "JOIN".into() } else { "LEFT JOIN".into() } });
+        in_scope.push(has("orders").unwrap());
+        join_tags.push("users-orders");
+    }
+    if from.len() == 1 && base_t.name == "orders" && has("items").is_some() && rg.chance(0.3) {
+        from.push(FromItem { table: "items".into(), alias: "i".into(), on: Some("i.order_id = o.id".into()), kind: if rg.chance(0.5) { "JOIN".into() } else { "LEFT JOIN".into() } });
+        in_scope.push(has("items").unwrap());
+        join_tags.push("orders-items");
+    }
     if with_public && in_scope.iter().any(|t| t.name == "users" && t.col_index("city").is_some()) && rg.chance(0.6) {
         from.push(FromItem { table: "regions".into(), alias: "r".into(), on: Some("u.city = r.city".into()), kind: "JOIN".into() });
         in_scope.push(has("regions").unwrap());
